@@ -511,6 +511,25 @@ fn systematic() -> Vec<Prog> {
             v.push(Prog { name, pages: 140, threads: vec![vec![x.clone()], f], init: init.clone() });
         }
     }
+    // bitmaps of ten words: code that treats words in groups (cache lines of 8 words) - the same bit
+    // position dirty in two words of one group, a mark landing in one of them during a harvest /
+    // reset / clone
+    for (iname, init) in [
+        ("same-bit-in-two-words", vec![SetBit(7), SetBit(64 + 3), SetBit(64 * 8 + 3)]),
+        ("same-bit-in-all-words-of-the-group", (0..8).map(|w| SetBit(64 * w + 3)).chain([SetBit(9)]).collect::<Vec<_>>()),
+    ] {
+        for (sn, threads) in [
+            ("harvest-vs-mark-in-first-word", vec![vec![Harvest], vec![SetBit(3)]]),
+            ("harvest-vs-mark-in-fifth-word", vec![vec![Harvest], vec![SetBit(64 * 4 + 5)]]),
+            ("harvest-vs-mark-in-ninth-word", vec![vec![Harvest], vec![SetBit(64 * 8 + 7)]]),
+            ("harvest-vs-mark-range-across-words", vec![vec![Harvest], vec![MarkRange(62, 4)]]),
+            ("reset-all-vs-mark", vec![vec![Reset], vec![SetBit(64 * 2 + 3)]]),
+            ("clone-vs-mark", vec![vec![Clone], vec![SetBit(64 * 2 + 3)]]),
+        ] {
+            let name = intern(format!("groups/{}/{}", iname, sn));
+            v.push(Prog { name, pages: 640, threads, init: init.clone() });
+        }
+    }
     // value-dependent states of a word: every page of the first word dirty (and, as a contrast,
     // all but one) before the threads start; two clearing operations and a re-mark race on it
     for (iname, init) in [("full-word", vec![MarkRange(0, 64)]), ("full-but-one", vec![MarkRange(0, 63)]), ("full-two-words", vec![MarkRange(0, 70)])] {
